@@ -4,6 +4,7 @@ import (
 	"go/constant"
 	"go/token"
 	"go/types"
+	"strings"
 
 	"golang.org/x/tools/go/ssa"
 )
@@ -223,7 +224,75 @@ func scan405(c *Ctx, rf, resolve *ssa.Function, httpErrT *types.Named, codeFld, 
 	})
 }
 
+// runC19EmptyMessage: C19.5 (defect D54).  A request message that is decoded from parts of the
+// request (the query string of a Connect GET, the body of a REST call) is handed to the codec
+// only when there are bytes to decode: zero bytes are the empty message, as they are on the
+// POST path, where an empty body never reaches the codec - and the JSON codec rejects them.
+func runC19EmptyMessage(c *Ctx) {
+	p := c.P
+	c.Rule("C19.5", "a request message decoded from request parts is not handed to the codec when it has zero bytes (GET and POST agree on the empty message)", 2)
+	cbp := p.Iface("clientBodyPreparer")
+	if cbp == nil {
+		fatalf("anchor=clientBodyPreparer not found")
+	}
+	n := 0
+	seen := map[ssa.Instruction]bool{}
+	for _, t := range p.Implementers(cbp) {
+		m := p.MethodOf(t, "prepareUnmarshalledRequest")
+		if m == nil {
+			continue
+		}
+		for _, fn := range SortedFuncs(p.Reach(m)) {
+			if !p.inScope(fn) || fn == p.Func("(*message).decode") {
+				continue
+			}
+			for _, call := range Calls(fn) {
+				cc := call.Common()
+				if !cc.IsInvoke() || (N(cc.Method) != "Unmarshal" && N(cc.Method) != "UnmarshalField") || seen[call] || len(cc.Args) == 0 {
+					continue
+				}
+				if !strings.Contains(types.TypeString(cc.Value.Type(), nil), "Codec") {
+					continue
+				}
+				seen[call] = true
+				n++
+				data := cc.Args[0]
+				nonEmpty := false
+				for _, f := range FactsAt(call.Block()) {
+					cmp, ok := f.AsCmp()
+					if !ok {
+						continue
+					}
+					k, isK := ConstInt(cmp.Y)
+					if !isK || k != 0 || !(cmp.Op == token.NEQ || cmp.Op == token.GTR) {
+						continue
+					}
+					for _, l := range Origins(cmp.X) {
+						if l.Kind == "call" && IsCallTo(l.Call, "builtin len") {
+							a := l.Call.Common().Args[0]
+							if a == data || strip(a) == strip(data) || sameQuantity(a, data) {
+								nonEmpty = true
+							}
+							// the same bytes through a phi (msgData = dst.Bytes() / []byte(msgStr))
+							if ph, ok := strip(data).(*ssa.Phi); ok && strip(a) == ssa.Value(ph) {
+								nonEmpty = true
+							}
+						}
+					}
+				}
+				c.Check(nonEmpty, "C19.5", FuncName(fn), "codec-not-given-zero-bytes:"+N(cc.Method), call.Pos(),
+					"the codec is called only where the data is known to be non-empty",
+					"the codec is handed the request message's bytes without a dominating 'len(data) != 0': zero bytes (the empty message) fail in the JSON codec on this path, while the same content in a POST body is accepted")
+			}
+		}
+	}
+	if n < 2 {
+		c.Bad("C19.5", "clientBodyPreparer", "codec-not-given-zero-bytes", token.NoPos, "fewer than two codec calls under prepareUnmarshalledRequest ("+itoa(n)+"): shape changed")
+	}
+}
+
 func runC19rest(c *Ctx) {
+	defer runC19EmptyMessage(c)
 	p := c.P
 	nse := noSideEffectsConst(p)
 	// ---------------------------------------------------------------- C19.2
